@@ -355,11 +355,11 @@ func forEachCaseO2(u *unit, fn func(seq int, sc *scope, c c09lib.Case) bool) err
 	seq := 0
 	for di := range dbs {
 		db := &dbs[di]
-		if !(strings.HasPrefix(db.name, "odd_") || db.name == "big" || db.name == "id_all" || di%5 == 3) {
+		if !(strings.HasPrefix(db.name, "odd_") || strings.HasPrefix(db.name, "val_") || db.name == "big" || db.name == "id_all" || di%5 == 3) {
 			continue
 		}
 		if heavy := len(u.pipe.stages) >= 3 || (u.kind == "metric" && len(u.pipe.stages) >= 2); heavy &&
-			!(db.name == "odd_array" || db.name == "odd_truncated" || db.name == "odd_empty" || db.name == "big" || db.name == "id_all" || di%10 == 3) {
+			!(db.name == "odd_array" || db.name == "odd_truncated" || db.name == "odd_empty" || db.name == "big" || db.name == "id_all" || db.name == "val_neg" || db.name == "val_mixed" || di%10 == 3) {
 			continue // the longest pipelines (thorough tier only) run on a smaller family
 		}
 		dirs := []bool{false}
